@@ -2,13 +2,14 @@
 from __future__ import annotations
 
 import ast
+import re
 from typing import Dict, List, Optional, Set, Tuple
 
 from ..cfg import NORMAL, Node, handler_classes
 from ..core import Ctx
 from ..flow import ALL, find_path, names_in
 from ..model import AnalysisError, FunctionInfo, dotted, norm_text
-from .common import edge_target, handler_exits, handler_nodes, in_handler, kwarg, reachable_from
+from .common import code_branches, effective_compare, edge_target, handler_exits, handler_nodes, in_handler, kwarg, reachable_from
 
 EXPLANATION = (
     "Static cross-check of the sibling StorageBackend implementations: (R1) both override every abstract method with "
@@ -92,17 +93,12 @@ def r2(ctx: Ctx) -> None:
                     continue
                 ex = handler_exits(ctx, nf, hn)
                 raised = [r.raised for r in ex["raise"]]
-                brs = [b for b in g.nodes if b.kind == "branch" and in_handler(b, hn.ast) and isinstance(b.ast, ast.Compare)]  # type: ignore[arg-type]
-                codes = [c.value for b in brs for c in ast.walk(b.ast) if isinstance(c, ast.Constant) and isinstance(c.value, str)]
+                codes = []
                 good_branch = False
-                for b in brs:
-                    t = edge_target(g, b, "true")
-                    if t is not None and isinstance(b.ast.ops[0], (ast.Eq, ast.In)):  # type: ignore[union-attr]
-                        rs = [g.nodes[x] for x in reachable_from(g, t, NORMAL) if g.nodes[x].kind == "raise"]
-                        fl = edge_target(g, b, "false")
-                        rs2 = [g.nodes[x] for x in reachable_from(g, fl, NORMAL) if g.nodes[x].kind == "raise"] if fl is not None else []
-                        if rs and all(r.raised == "FileNotFoundError" for r in rs if in_handler(r, hn.ast) and r.id in reachable_from(g, t, NORMAL, avoid=[fl] if fl else [])):  # type: ignore[arg-type]
-                            good_branch = any(r.raised == "reraise" for r in rs2)
+                for b, cs, mr, orr, _mo, _oo in code_branches(ctx, nf, hn):
+                    codes += sorted(cs)
+                    if code in cs and mr == {"FileNotFoundError"} and "reraise" in orr and "FileNotFoundError" not in orr:
+                        good_branch = True
                 ok = good_branch and not ex["fallthrough"] and not ex["return"] and code in codes
                 detail = f"codes {codes}; raises {raised}; swallow={bool(ex['fallthrough'] or ex['return'])}"
         if name == "get_size":
@@ -175,16 +171,38 @@ def r3(ctx: Ctx) -> None:
     ctx.ob("C20.R3", rb, "permanent errors re-raise before any sleep", perm[0] if perm else None, ok and bool(sleeps),
            "credentials / permissions / missing bucket surface immediately")
     loops = [l for l in g.nodes if l.kind == "loop" and isinstance(l.ast, ast.For)]
-    ok = bool(loops) and "range(" in norm_text(loops[0].ast.iter) and "max_retries" in norm_text(loops[0].ast.iter)  # type: ignore[union-attr]
-    ctx.ob("C20.R3", rb, "attempts are bounded by max_retries", loops[0] if loops else None, ok, "for attempt in range(self.max_retries + 1)")
-    exh = [b for b in g.nodes if b.kind == "branch" and isinstance(b.ast, ast.Compare) and isinstance(b.ast.ops[0], ast.Lt)
-           and "max_retries" in norm_text(b.ast.comparators[0]) and in_handler(b, hn.ast)]  # type: ignore[arg-type]
+    rsl = ctx.slicer(rb)
     ok = False
-    for b in exh:
-        fl = edge_target(g, b, "false")
-        if fl is not None:
-            rs = [g.nodes[x] for x in reachable_from(g, fl, NORMAL) if g.nodes[x].kind == "raise"]
-            ok = bool(rs) and all(r.raised == "reraise" for r in rs)
+    if loops:
+        it = loops[0].ast.iter  # type: ignore[union-attr]
+        if isinstance(it, ast.Call) and (dotted(it.func) or "") == "range" and it.args:
+            org = rsl.origins(it.args[-1] if len(it.args) < 3 else it.args[1], loops[0].id)
+            ok = any(nm.endswith("max_retries") for nm in org["names"])
+    ctx.ob("C20.R3", rb, "attempts are bounded by max_retries", loops[0] if loops else None, ok, "for attempt in range(self.max_retries + 1)")
+    ok = False
+    exh = []
+    for b in g.nodes:
+        if b.kind != "branch" or not in_handler(b, hn.ast) or b.id not in g.reachable():  # type: ignore[arg-type]
+            continue
+        ec = effective_compare(ctx, rb, b)
+        if ec is None or len(ec[0].ops) != 1 or not isinstance(ec[0].ops[0], (ast.Lt, ast.LtE, ast.Gt, ast.GtE)):
+            continue
+        lo_, ro_ = rsl.origins(ec[0].left, ec[1]), rsl.origins(ec[0].comparators[0], ec[1])
+        loop_l = any(g.nodes[x].kind == "loop" for x in lo_["nodes"])  # the attempt counter is the loop variable
+        loop_r = any(g.nodes[x].kind == "loop" for x in ro_["nodes"])
+        lim_r = any(nm.endswith("max_retries") for nm in ro_["names"]) and not loop_r and loop_l
+        lim_l = any(nm.endswith("max_retries") for nm in lo_["names"]) and not loop_l and loop_r
+        if lim_r == lim_l:
+            continue
+        is_lt = isinstance(ec[0].ops[0], (ast.Lt, ast.LtE))
+        # attempt < max (budget left) on the true edge  <=>  (Lt and limit right) or (Gt and limit left)
+        left_on_true = (is_lt and lim_r) or (not is_lt and lim_l)
+        exhausted = edge_target(g, b, "false" if left_on_true else "true")
+        exh.append(b)
+        if exhausted is not None:
+            reach = reachable_from(g, exhausted, NORMAL, avoid=[n.id for n in g.nodes if n.kind in ("loop", "loop_head")])
+            rs = [g.nodes[x] for x in reach if g.nodes[x].kind == "raise"]
+            ok = bool(rs) and all(r.raised == "reraise" for r in rs) and not any(s_.id in reach for s_ in sleeps)
     ctx.ob("C20.R3", rb, "the last failure is re-raised, never swallowed", exh[0] if exh else None, ok, "retry budget exhausted -> raise")
     others = [h for h in handler_nodes(ctx, rb) if h is not hn]
     ok = all(not (handler_exits(ctx, rb, h)["fallthrough"] or handler_exits(ctx, rb, h)["return"] or handler_exits(ctx, rb, h)["loop"]) for h in others)
@@ -328,6 +346,40 @@ def r5(ctx: Ctx, rid: str = "C20.R5") -> None:
                          "data_old/* as orphans)"))
 
 
+def _str_template(ctx: Ctx, outer: FunctionInfo, inner: FunctionInfo, e: ast.AST, depth: int = 0) -> Optional[str]:
+    """A string-building expression as a template with {<expr>} holes: f-string, <const>.format(...), or a variable of the
+    enclosing function with a single such definition."""
+    if depth > 3:
+        return None
+    if isinstance(e, ast.Name):
+        for fn in (inner, outer):
+            defs = [x.value for x in ast.walk(fn.node) if isinstance(x, ast.Assign) and len(x.targets) == 1
+                    and isinstance(x.targets[0], ast.Name) and x.targets[0].id == e.id]
+            if len(defs) == 1:
+                return _str_template(ctx, outer, inner, defs[0], depth + 1)
+        return None
+    if isinstance(e, ast.JoinedStr):
+        return "".join(str(v.value) if isinstance(v, ast.Constant) else "{" + norm_text(v.value) + "}" for v in e.values)  # type: ignore[attr-defined]
+    if isinstance(e, ast.Call) and isinstance(e.func, ast.Attribute) and e.func.attr == "format":
+        base = ctx.prog.const_str(e.func.value, outer.module, outer)
+        if base is None:
+            return None
+        out = base
+        for k in e.keywords:
+            if k.arg:
+                out = out.replace("{" + k.arg + "}", "{\x00" + norm_text(k.value) + "}")
+        for a in e.args:
+            out = out.replace("{}", "{\x00" + norm_text(a) + "}", 1)
+        return out.replace("\x00", "")
+    if isinstance(e, ast.BinOp) and isinstance(e.op, ast.Mod) and isinstance(e.left, ast.Constant) and isinstance(e.left.value, str):
+        args = e.right.elts if isinstance(e.right, ast.Tuple) else [e.right]
+        out = e.left.value
+        for a in args:
+            out = re.sub(r"%[sd]", lambda _m: "{" + norm_text(a) + "}", out, count=1)
+        return out
+    return None
+
+
 def r6(ctx: Ctx) -> None:
     ctx.rule("C20.R6", "range reader: reads are clamped to the object, only in-range bytes are requested, a negative seek / "
              "unknown whence raise", 5)
@@ -374,13 +426,18 @@ def r6(ctx: Ctx) -> None:
     sets = [n for n in g.nodes if n.kind == "stmt" and isinstance(n.ast, ast.Assign) and norm_text(n.ast.targets[0]) == "self._pos"]
     ctx.ob("C20.R6", sk, "negative position raises before the position is stored", neg[0] if neg else None,
            ok and bool(sets) and all(any(b.id in dom[s.id] for b in neg) for s in sets), "a negative position is an error")
-    posvars = {n.ast.value.id for n in g.nodes if n.kind == "stmt" and isinstance(n.ast, ast.Assign)
-               and norm_text(n.ast.targets[0]) == "self._pos" and isinstance(n.ast.value, ast.Name)}
-    news = [n for n in g.nodes if n.kind == "stmt" and isinstance(n.ast, ast.Assign) and norm_text(n.ast.targets[0]) in posvars]
-    plain = {"offset", "self._pos + offset", "self._size + offset", "offset + self._pos", "offset + self._size"}
-    odd = [n for n in news if norm_text(n.ast.value) not in plain]  # type: ignore[union-attr]
-    ctx.ob("C20.R6", sk, "target position is plain arithmetic (no clamping that hides a negative position)", odd[0] if odd else (news[0] if news else None),
-           bool(news) and not odd, f"definitions of the target position: {[norm_text(n.ast.value) for n in news]}"  # type: ignore[union-attr]
+    ssl = ctx.slicer(sk)
+    odd = []
+    shown = []
+    for st in sets:
+        org = ssl.origins(st.ast.value, st.id)  # type: ignore[union-attr]
+        shown += sorted({norm_text(e)[:40] for e in org["exprs"]})
+        clamp = [c for c in org["calls"] if isinstance(c, ast.Call) and (dotted(c.func) or "") in ("max", "min", "abs")]
+        cond = [e for x in org["exprs"] for e in ast.walk(x) if isinstance(e, ast.IfExp)]
+        if clamp or cond:
+            odd.append(st)
+    ctx.ob("C20.R6", sk, "target position is plain arithmetic (no clamping that hides a negative position)", odd[0] if odd else (sets[0] if sets else None),
+           bool(sets) and not odd, f"definitions of the target position: {shown[:6]}"
            + ("; a clamped position makes seek(-k, SEEK_END) past the start succeed where a local file raises" if odd else ""))
     rs = [n for n in g.nodes if n.kind == "raise" and n.raised == "ValueError"]
     whence_br = [b for b in g.nodes if b.kind == "branch" and "whence" in b.text]
@@ -388,10 +445,13 @@ def r6(ctx: Ctx) -> None:
     ctx.ob("C20.R6", sk, "unknown whence raises", whence_br[-1] if whence_br else None, ok, "SET / CUR / END else ValueError")
     grf = rf.methods.get("_get_range")
     ok = False
+    tmpl = None
     if grf is not None:
+        pn = [p.name for p in grf.params if p.name != "self"]
         for nf in grf.nested.values():
             for n in ctx.cfg(nf).calls():
                 rk = kwarg(n.ast, "Range")
                 if rk is not None:
-                    ok = "bytes=" in norm_text(rk) and "first" in norm_text(rk) and "last" in norm_text(rk)
-    ctx.ob("C20.R6", grf or sk, "Range header = bytes=first-last", None, ok, "exactly the clamped interval is requested")
+                    tmpl = _str_template(ctx, grf, nf, rk)
+                    ok = len(pn) >= 2 and tmpl == "bytes={%s}-{%s}" % (pn[0], pn[1])
+    ctx.ob("C20.R6", grf or sk, "Range header = bytes=first-last", None, ok, f"exactly the clamped interval is requested (header template: {tmpl!r})")
